@@ -62,6 +62,12 @@ def run(tier, seed):
     for i in range(4 if tier == "quick" else 30):
         jobs.append(("tight_%d" % i, ["--seed", str(rng.randrange(1 << 30)), "--steps", str(steps),
                                       "--mode", "mem", "--ttl", "1", "--lim", str(rng.choice([700, 1000, 1400]))]))
+    # explicit timestamps anywhere in the 64-bit range (around 2^63, 3*2^62, 2^64 - 2^40): memory and persistent with
+    # clean reopens; few keys, so that automatic calls on the same key follow soon
+    for i in range(6 if tier == "quick" else 40):
+        mode = ["mem", "pers", "pers"][i % 3]
+        jobs.append(("wide_%d" % i, ["--seed", str(rng.randrange(1 << 30)), "--steps", str(steps), "--mode", mode,
+                                     "--ttl", str(i % 2), "--highpct", "6", "--fmt", str([3, 3, 2][i % 3]), "--cache", str(i % 2)]))
     viol, st = q.run_engine(PROP, tier, seed, INV, jobs, rd, fxv, classify=classify)
     # clock saturation next to u64::MAX (dedicated scenario, recorded finding)
     sat_traces = []
